@@ -117,6 +117,8 @@ def parse_obs(path):
             elif t == 'PRE': blk['pre'] = f[1] == '1'
             elif t == 'STEP': blk['step'] = f[1] == '1'
             elif t == 'QUIET': blk['quiet'] = f[1] == '1'
+            elif t == 'QUIET2': blk['quiet2'] = f[1] == '1'
+            elif t == 'WF': blk['wf'] = f[1] == '1'
     return hs
 
 # ---------------------------------------------------------------- helpers over a history
